@@ -744,7 +744,10 @@ func cmdRun(args []string) int {
 			"workers":                                       *workers,
 		},
 		Assumptions: []string{
-			"readers and writers honour the io.Reader / io.Writer contracts and always return; readers return (0,nil) at most twice in a row",
+			map[bool]string{
+				false: "readers and writers honour the io.Reader / io.Writer contracts and always return; readers return (0,nil) at most twice in a row; callers overwrite the buffer they passed to Write after the call and do not touch a slice handed to Reset until the next Reset",
+				true:  "writers always return; a third of the faulting writers also answers with a short count and a NIL error now and then (outside the io.Writer contract: this property only presupposes that the writer returns)",
+			}[p.ID == "C06"],
 			"sampling, not proof: a clean batch is evidence proportional to the counts above",
 			"the go/ast yield-point instrumentation does not change library behaviour (checked by the neutrality self-test)",
 			"allocation failure, syscall failure, disk/network faults and clocks do not exist in this library and are not simulated",
